@@ -83,6 +83,14 @@ def explore(chk):
             forced = textgen.parse_dfxp(pycaption.DFXPWriter().write(cs, force=f))
             if [l for l, _ in forced] != [f]:
                 chk.property_failure(dict(case, force=f, parsed=str([l for l, _ in forced])), "dfxp force= does not select exactly the named language")
+            # a language the set does not hold ("only use this language, if available"): everything is written
+            absent = rng.choice(["zz", langs[0][:2] if langs[0][:2] not in langs else "zz", langs[0] + "-x"])
+            if absent not in langs:
+                unforced = textgen.parse_dfxp(pycaption.DFXPWriter().write(cs, force=absent))
+                got2 = [(lang, [" ".join(" ".join(ls).split()) for (_, _, ls) in cues]) for (lang, cues) in unforced]
+                if got2 != want:
+                    chk.property_failure(dict(case, force=absent, parsed=str(got2)[:1200], spec=str(want)[:1200]),
+                                         "dfxp force= naming a language the set does not hold must leave all languages and their cues in place")
         except Exception as e:
             chk.property_failure(dict(case, error=repr(e)[:300]), "dfxp multi-language write/read raised %s" % type(e).__name__)
         # ---------------- SAMI
@@ -136,7 +144,14 @@ def explore(chk):
                 pass
         # ---------------- WebVTT lang=
         l = rng.choice(langs)
-        vtt = pycaption.WebVTTWriter().write(cs, lang=l)
+        wv = pycaption.WebVTTWriter() if not reuse else shared_w.setdefault("webvtt", pycaption.WebVTTWriter())
+        vtt = wv.write(cs, lang=l)
+        if reuse:
+            # the same writer object, now without lang=: the first language of the set, whatever was asked for before
+            again = [" ".join(" ".join(ls).split()) for (_, ls) in textgen.parse_vtt(wv.write(cs))]
+            if again != [t for (_, t) in src[0][1]]:
+                chk.property_failure(dict(base_case, format="webvtt", previous_lang=l, parsed=str(again)[:800]),
+                                     "webvtt write() without lang= on a reused writer does not write the first language's cues")
         cues = textgen.parse_vtt(vtt)
         got = [" ".join(" ".join(ls).split()) for (_, ls) in cues]
         chk.case(key=json.dumps(base_case, sort_keys=True) + "vtt" + l, nontrivial=len(langs) > 1)
